@@ -3,7 +3,7 @@
 the observed run is accepted iff it is a path of that graph (GraphJudge)."""
 import json, os, subprocess, time
 from vlib import *
-from vlib import canon
+from vlib import canon, matches
 
 
 def run_driver(exe, cmdfile, timeout, env=None):
@@ -124,7 +124,7 @@ def replay_walks(v, g, walks, exe, obj, to_cmd, init_cmd, tag, sig_of=None, chun
                     ok, idx, allowed = True, len(steps), None
                     for k2, (ain, oout, oobs) in enumerate(steps):
                         e = edges[w[k2]]
-                        if canon(oout) != e[2].get("out") or canon(oobs) != e[3]:
+                        if not (matches(canon(oout), e[2].get("out")) and matches(canon(oobs), e[3])):
                             ok, idx, allowed = False, k2, [dict(out=e[2].get("out"), obs=e[3])]
                             break
                 else:
